@@ -29,6 +29,7 @@ type Opt struct {
 	Tail         int // percentage: hand the whole context to a helper function by a tail call
 	TopCall      int // percentage: a top-level process with free names is just a call
 	Reuse        int // percentage: a cut re-binds the name of an argument its call consumes (x <- new f(x))
+	Vary         int // percentage: a written type uses the unfolding of a name instead of the name
 }
 
 func DefaultOpt(r *rand.Rand) Opt {
@@ -92,6 +93,9 @@ func tryGenerate(r *rand.Rand, o Opt) (p *Program, ok bool) {
 	}
 	if o.Reuse == 0 {
 		o.Reuse = 12
+	}
+	if o.Vary == 0 {
+		o.Vary = 20
 	}
 	g := &G{R: r, O: o, Env: Env{}, P: &Program{Feat: map[string]int{}}, mk: map[string]string{}, cons: map[string]string{}, lib: map[string]bool{}, budget: 1500}
 	defer func() {
@@ -269,27 +273,27 @@ func (g *G) producer(A *Ty, fuel int) (func(*Term) *Term, string) {
 	}
 	if U.K == KUnit && g.coin(70) {
 		return func(c *Term) *Term {
-			return &Term{Op: "new", Y: a, Ann: A, Body: &Term{Op: "close", X: "self"}, Cont: c}
+			return &Term{Op: "new", Y: a, Ann: g.vary(A), Body: &Term{Op: "close", X: "self"}, Cont: c}
 		}, a
 	}
 	if U.K == KPlus && g.coin(35) && fuel > 0 {
 		br := g.pickBranch(A, U, fuel)
 		w, p := g.producer(br.T, fuel-1)
 		return func(c *Term) *Term {
-			return w(&Term{Op: "new", Y: a, Ann: A, Body: &Term{Op: "sel", X: "self", Lbl: br.L, Y: p}, Cont: c})
+			return w(&Term{Op: "new", Y: a, Ann: g.vary(A), Body: &Term{Op: "sel", X: "self", Lbl: br.L, Y: p}, Cont: c})
 		}, a
 	}
 	if U.K == KSend && g.coin(35) && fuel > 0 {
 		w1, p1 := g.producer(U.L, fuel-1)
 		w2, p2 := g.producer(U.R, fuel-1)
 		return func(c *Term) *Term {
-			return w1(w2(&Term{Op: "new", Y: a, Ann: A, Body: &Term{Op: "send", X: "self", Y: p1, Z: p2}, Cont: c}))
+			return w1(w2(&Term{Op: "new", Y: a, Ann: g.vary(A), Body: &Term{Op: "send", X: "self", Y: p1, Z: p2}, Cont: c}))
 		}, a
 	}
 	if U.K == KDown && g.coin(35) && fuel > 0 {
 		w, p := g.producer(U.L, fuel-1)
 		return func(c *Term) *Term {
-			return w(&Term{Op: "new", Y: a, Ann: A, Body: &Term{Op: "cast", X: "self", Y: p}, Cont: c})
+			return w(&Term{Op: "new", Y: a, Ann: g.vary(A), Body: &Term{Op: "cast", X: "self", Y: p}, Cont: c})
 		}, a
 	}
 	fn := g.mkFunc(A, fuel)
@@ -329,7 +333,7 @@ func (g *G) consFunc(T *Ty, q Mode, fuel int) string {
 	}
 	g.nFn++
 	fn := fmt.Sprintf("cons%d", g.nFn)
-	f := &Func{Name: fn, Params: []Var{{"x", T}}, Ret: g.unit(q)}
+	f := &Func{Name: fn, Params: []Var{{"x", g.vary(T)}}, Ret: g.unit(q)}
 	g.P.Funcs = append(g.P.Funcs, f)
 	if g.libBase(T) != "" {
 		g.cons[k] = fn // structural recursion on a strict sub-term
@@ -364,11 +368,11 @@ func (g *G) recConsumer(T *Ty, q Mode, self string) *Term {
 		build = func(x string, i int) *Term {
 			if i == 0 {
 				r := g.fresh("r")
-				return &Term{Op: "new", Y: r, Ann: g.unit(m), Body: &Term{Op: "sel", X: x, Lbl: "stop", Y: "self"}, Cont: &Term{Op: "wait", X: r, Cont: &Term{Op: "close", X: "self"}}}
+				return &Term{Op: "new", Y: r, Ann: g.vary(g.unit(m)), Body: &Term{Op: "sel", X: x, Lbl: "stop", Y: "self"}, Cont: &Term{Op: "wait", X: r, Cont: &Term{Op: "close", X: "self"}}}
 			}
 			r, h, t, u := g.fresh("r"), g.fresh("h"), g.fresh("t"), g.fresh("u")
 			st := Send(m, g.libType("nat", m), T)
-			return &Term{Op: "new", Y: r, Ann: st, Body: &Term{Op: "sel", X: x, Lbl: "next", Y: "self"}, Cont: &Term{Op: "recv", X: r, Y: h, Z: t, Cont: &Term{Op: "new", Y: u, Body: &Term{Op: "call", Fn: cn, Args: []string{h}}, Cont: &Term{Op: "wait", X: u, Cont: build(t, i-1)}}}}
+			return &Term{Op: "new", Y: r, Ann: g.vary(st), Body: &Term{Op: "sel", X: x, Lbl: "next", Y: "self"}, Cont: &Term{Op: "recv", X: r, Y: h, Z: t, Cont: &Term{Op: "new", Y: u, Body: &Term{Op: "call", Fn: cn, Args: []string{h}}, Cont: &Term{Op: "wait", X: u, Cont: build(t, i-1)}}}}
 		}
 		return build("x", n)
 	}
@@ -456,7 +460,7 @@ func (g *G) newHelper(prefix string, params []Var, ret *Ty) *Func {
 	g.nFn++
 	f := &Func{Name: fmt.Sprintf("%s%d", prefix, g.nFn), Ret: ret}
 	for _, v := range params {
-		f.Params = append(f.Params, Var{g.fresh("q"), v.T})
+		f.Params = append(f.Params, Var{g.fresh("q"), g.vary(v.T)})
 	}
 	if g.coin(g.O.ExplicitProv) {
 		f.Prov = g.fresh("w")
@@ -674,7 +678,7 @@ func (g *G) elimX(ctx []Var, i int, A *Ty, fuel int, noDeleg bool, self string) 
 		}
 		r := g.fresh("r")
 		g.feat("sendL")
-		return w(&Term{Op: "new", Y: r, Ann: U.R, Body: &Term{Op: "send", X: g.pol(x.N, x.T), Y: b, Z: "self"}, Cont: g.gen(append(rest, Var{r, U.R}), A, fuel, self)})
+		return w(&Term{Op: "new", Y: r, Ann: g.vary(U.R), Body: &Term{Op: "send", X: g.pol(x.N, x.T), Y: b, Z: "self"}, Cont: g.gen(append(rest, Var{r, U.R}), A, fuel, self)})
 	case KWith:
 		br := U.Br[g.R.Intn(len(U.Br))]
 		if g.libBase(x.T) == "srv" && fuel <= 1 {
@@ -682,7 +686,7 @@ func (g *G) elimX(ctx []Var, i int, A *Ty, fuel int, noDeleg bool, self string) 
 		}
 		r := g.fresh("r")
 		g.feat("selL")
-		return &Term{Op: "new", Y: r, Ann: br.T, Body: &Term{Op: "sel", X: g.pol(x.N, x.T), Lbl: br.L, Y: "self"}, Cont: g.gen(append(rest, Var{r, br.T}), A, fuel-1, self)}
+		return &Term{Op: "new", Y: r, Ann: g.vary(br.T), Body: &Term{Op: "sel", X: g.pol(x.N, x.T), Lbl: br.L, Y: "self"}, Cont: g.gen(append(rest, Var{r, br.T}), A, fuel-1, self)}
 	case KUp:
 		if !Geq(U.From, m) {
 			// the shifted channel would be weaker than this provider: no rule applies here
@@ -694,7 +698,7 @@ func (g *G) elimX(ctx []Var, i int, A *Ty, fuel int, noDeleg bool, self string) 
 		}
 		r := g.fresh("r")
 		g.feat("castL")
-		return &Term{Op: "new", Y: r, Ann: U.L, Body: &Term{Op: "cast", X: g.pol(x.N, x.T), Y: "self"}, Cont: g.gen(append(rest, Var{r, U.L}), A, fuel, self)}
+		return &Term{Op: "new", Y: r, Ann: g.vary(U.L), Body: &Term{Op: "cast", X: g.pol(x.N, x.T), Y: "self"}, Cont: g.gen(append(rest, Var{r, U.L}), A, fuel, self)}
 	}
 	panic("elim")
 }
@@ -707,6 +711,13 @@ func (g *G) program() *Program {
 	}
 	var avail []Var
 	for i := 0; i < nTop; i++ {
+		if pr := g.topClientAxiom(&avail); pr != nil {
+			g.P.Procs = append(g.P.Procs, pr)
+			for _, n := range pr.Names {
+				avail = append(avail, Var{n, pr.T})
+			}
+			continue
+		}
 		m := f0
 		if g.O.Mixed {
 			ms := g.modesAbove(f0)
@@ -832,4 +843,83 @@ func (g *G) rebind(fresh, consumed string) string {
 		return consumed
 	}
 	return fresh
+}
+
+// vary returns a type equal to t but possibly written differently: a name replaced by its
+// one-step unfolding, somewhere in the type.
+func (g *G) vary(t *Ty) *Ty {
+	if t == nil || !g.coin(g.O.Vary) {
+		return t
+	}
+	var rec func(x *Ty, depth int) *Ty
+	rec = func(x *Ty, depth int) *Ty {
+		if x == nil {
+			return nil
+		}
+		if x.K == KName {
+			if g.coin(60) {
+				g.feat("type-written-unfolded")
+				return g.Env[x.Name]
+			}
+			return x
+		}
+		if depth <= 0 {
+			return x
+		}
+		c := *x
+		c.L, c.R = rec(x.L, depth-1), rec(x.R, depth-1)
+		if x.Br != nil {
+			c.Br = make([]Branch, len(x.Br))
+			for i, b := range x.Br {
+				c.Br[i] = Branch{L: b.L, T: rec(b.T, depth-1)}
+			}
+		}
+		return &c
+	}
+	return rec(t, 2)
+}
+
+// topClientAxiom: a top-level process (often with two names) whose whole body is a client
+// axiom on another top-level name: x.l<self>, send x<y, self> or cast x<self>. Its first
+// and only action is a send on somebody else's channel.
+func (g *G) topClientAxiom(avail *[]Var) *Proc {
+	if !g.coin(30) {
+		return nil
+	}
+	for i, x := range *avail {
+		U := Unfold(x.T, g.Env)
+		var T *Ty
+		var body *Term
+		rest := rm(*avail, i)
+		switch U.K {
+		case KWith:
+			br := U.Br[g.R.Intn(len(U.Br))]
+			T = br.T
+			body = &Term{Op: "sel", X: x.N, Lbl: br.L, Y: "self"}
+		case KRecv:
+			for j, y := range rest {
+				if Equal(y.T, U.L, g.Env) {
+					T = U.R
+					body = &Term{Op: "send", X: x.N, Y: y.N, Z: "self"}
+					rest = rm(rest, j)
+					break
+				}
+			}
+		case KUp:
+			T = U.L
+			body = &Term{Op: "cast", X: x.N, Y: "self"}
+		}
+		if body == nil || !Geq(T.M, g.O.MainMode) {
+			continue
+		}
+		names := []string{g.fresh("v")}
+		if T.M.Contract() && g.coin(70) {
+			names = append(names, g.fresh("v"))
+			g.feat("multiprov")
+		}
+		g.feat("top-client-axiom")
+		*avail = rest
+		return &Proc{Names: names, T: T, Body: body}
+	}
+	return nil
 }
